@@ -52,8 +52,14 @@ def gen(ctx):
         for nb in ("moore", "vn"):
             yield dict(kind="ev2", hist=[[[(i * 3 + j * j) % 3 for j in range(C)] for i in range(R)]], dtype="int32",
                        scale=1, r=r, nb=nb, rule="probe:4:3:1:0", T=3, memo="False")
+    for K in ([33, 70, 130] if ctx.tier == "quick" else [31, 32, 33, 63, 64, 65, 70, 127, 128, 129, 130, 257]):
+        for H in (1, 3):
+            R, C = rng.choice([(2, 3), (3, 2), (3, 3), (1, 4)])
+            yield dict(kind="ev2", hist=[[[rng.randrange(3) for _ in range(C)] for _ in range(R)] for _ in range(H)],
+                       dtype=rng.choice(["int32", "uint8", "float64"]), scale=1, r=1, nb=rng.choice(["moore", "vn"]),
+                       rule=rng.choice(["hash:3:2:1:0", "probe:3:2:1:0", "counter:3:0"]), pred="steps:%d" % K, memo="False", fuel=K + 5)
     for _ in range(ctx.n(400, 5000)):
-        c = rand_case(rng)
+        c = rand_case(rng, kinds=("hash", "probe", "counter", "half"))
         if rng.random() < 0.25:
             c["clobber"] = 1          # the rule overwrites the block it was handed (later cells must not see that)
         yield c
